@@ -53,6 +53,7 @@ primitive_implicit_defaults: Final[Mapping[type, object]] = MappingProxyType(
         UUID: uuid_zero,
         str: "",
         bytes: b"",
+        bool: False,
     }
 )
 
